@@ -55,6 +55,7 @@ from itertools import product
 from typing import Callable
 
 import numpy as np
+from scipy.constants import mu_0 as MU0
 from scipy.spatial.transform import Rotation as R
 
 from magpylib._src.exceptions import MagpylibBadUserInput
@@ -497,6 +498,21 @@ def getBH_dict_level2(
             f"Input parameter `sources` must be one of {list(source_classes)}"
             " when using the functional interface."
         ) from err
+
+    # magnetization is the documented alternative to polarization (J = mu_0*M)
+    if "magnetization" in kwargs:
+        if "polarization" in kwargs:
+            raise MagpylibBadUserInput(
+                "Only one of `magnetization` or `polarization` can be given."
+            )
+        try:
+            kwargs["polarization"] = (
+                np.array(kwargs.pop("magnetization"), dtype=float) * MU0
+            )
+        except (TypeError, ValueError) as err:
+            raise MagpylibBadUserInput(
+                "magnetization input must be array-like."
+            ) from err
 
     kwargs["observers"] = observers
     kwargs["position"] = position
